@@ -283,6 +283,18 @@ def c04_shape(lens, padz=0, trunc=0, mtype=-1, ptype=-1, ver=1):
     return d
 
 
+def c04_hist_jobs():
+    jobs = []
+    for (lens, kw, hist, tier) in (([8], {}, 1, "quick"), ([8], {}, 2, "quick"), ([8], {}, 3, "quick"), ([8, 8], {"mtype": 1, "ptype": 1}, 1, "quick"), ([24], {"mtype": 1}, 1, "thorough"),
+                                   ([8], {"trunc": 1}, 1, "thorough"), ([16], {"padz": 4}, 2, "thorough"), ([36], {"mtype": 3, "ptype": 1}, 1, "thorough"), ([8, 8], {"mtype": 1, "ptype": 0xFE}, 3, "thorough")):
+        d = c04_shape(lens, **kw)
+        d["HIST"] = hist
+        n = 8 + sum(16 + l for l in lens)
+        jobs.append(Job("dec.cpp", "h_dec_wire", defs=d, unwind=4 * n + 60, unwindset=dec_unwindset(n), tier=tier, in_max=n + 48 + 40, mem_gb=8, variant="mapmodel",
+                        sym="every frame byte of both frames except version, segment bits and the declared lengths", outside="histories longer than one earlier frame (see C05/C17/C18 for sequences)"))
+    return jobs
+
+
 def c04_jobs():
     quick = [c04_shape([8]), c04_shape([16]), c04_shape([24], mtype=1), c04_shape([0]), c04_shape([36], mtype=3, ptype=1), c04_shape([40], mtype=3, ptype=2), c04_shape([38], mtype=3, ptype=1),
              c04_shape([8], padz=4), c04_shape([8], padz=16), c04_shape([8], trunc=1), c04_shape([8, 8], mtype=1, ptype=1), c04_shape([8, 8], mtype=1, ptype=1, trunc=1),
@@ -306,7 +318,7 @@ def c04_jobs():
     return jobs
 
 
-PROPS["C04"] = {"jobs": c04_jobs, "assumptions": COMMON_ASSUME + [
+PROPS["C04"] = {"jobs": lambda: c04_jobs() + c04_hist_jobs(), "assumptions": COMMON_ASSUME + [
     "declared message lengths, message count, padding/truncation amounts and the version byte are concrete shape parameters",
     "history quantifier: this check covers a fresh decoder; independence from earlier history is C17/C18's step lemma (an unsegmented message only erases its endpoint's entry)",
     "validity oracle is written independently in harness/dec.cpp expectValid; cases the property leaves open (CAN error position without flags, Ethernet tx-port-down/truncated, interface status > 2) are not asserted either way"],
